@@ -76,7 +76,9 @@ SetObj(st, p, n, c) ==
        IN {Rej(st)} \cup
           (IF q = p /\ Reps(st, p, n)[1] = c THEN {Ok(st)}
            ELSE IF r = <<>> THEN (IF Admissible(st1, p, c) THEN {Ok(AppendKid(st1, p, c))} ELSE {})
-           ELSE {Ok(ReplaceKid(st1, p, PosOf(st1.kids[p], r[1]), c))})
+           ELSE {Ok(ReplaceKid(st1, p, PosOf(st1.kids[p], r[1]), c))}
+                \* c is a later repetition of the same parent: the replaced child may also simply go, c staying where it is
+                \cup (IF q = p THEN {Ok(Drop([st EXCEPT !.kids[p] = RemoveAt(@, PosOf(@, r[1]))], r[1]))} ELSE {}))
 
 (* children[i] = v : replace the child at list position i (1-based here) by a parse of v under the same name *)
 SetAt(st, p, i, v) ==
